@@ -149,6 +149,17 @@ def sweeps(tier, rng):
             p = max(sorted(tagsets), key=lambda q: len(tagsets[q] - seen))
             if not (tagsets[p] - seen): break
             chosen.append(p); seen |= tagsets.pop(p)
+        # every font carrying a table that at most five corpus fonts have (VARC, COLR variants, AAT tables ...): one font per tag
+        # leaves the other encodings of a rare table (conditions, formats) unvisited
+        if k >= 10:
+            from collections import Counter
+            alltags = {}
+            for q in bins:
+                try: alltags[q] = set(TTFont(q, lazy=True, fontNumber=0 if q.endswith(".ttc") else -1).reader.keys())
+                except Exception: pass
+            cnt = Counter(t for ts in alltags.values() for t in ts)
+            rare = sorted((q for q, ts in alltags.items() if q not in chosen and any(cnt[t] <= 5 for t in ts)), key=lambda q: (os.path.getsize(q), q))
+            chosen += rare[:30 if tier == "quick" else 200]
         return chosen
     def inputs():
         k = 10 if tier == "quick" else 40 if tier == "search" else 400
@@ -162,6 +173,58 @@ def sweeps(tier, rng):
         except Exception: pass
         # CFF fonts whose String / Name / CharStrings INDEX data lengths sweep across 255 and 65535 (offset size 1 -> 2 -> 3)
         for name, data in cff_index_boundary_fonts(rng, 12 if tier == "quick" else 60): yield name, data, -1
+        # corpus fonts given a hand-packed format 4 cmap (one segment per constant-delta run, written here, not by fontTools) whose
+        # single run of codes alternates stretches of consecutive glyph IDs with scattered ones: what the compiler's run
+        # splitting (splitRange) has to re-segment when the table is decoded and recompiled
+        import struct as _st
+        from fontTools.ttLib.tables.DefaultTable import DefaultTable as _DT
+        made = 0
+        try:
+            from fontTools.fontBuilder import FontBuilder
+            from fontTools.pens.ttGlyphPen import TTGlyphPen
+            gorder = [".notdef"] + ["g%03d" % i for i in range(1, 150)]
+            fb = FontBuilder(1000, isTTF=True); fb.setupGlyphOrder(gorder); fb.setupCharacterMap({0x41: "g001"})
+            pen = TTGlyphPen(None); pen.moveTo((0, 0)); pen.lineTo((100, 0)); pen.lineTo((50, 100)); pen.closePath(); gl = pen.glyph()
+            fb.setupGlyf({n_: gl for n_ in gorder}); fb.setupHorizontalMetrics({n_: (500, 0) for n_ in gorder}); fb.setupHorizontalHeader(ascent=800, descent=-200)
+            fb.setupNameTable({"familyName": "C4", "styleName": "R"}); fb.setupOS2(); fb.setupPost()
+            bb = io.BytesIO(); fb.save(bb); base_font = bb.getvalue()
+        except Exception:
+            base_font = None
+        for q in range(40 if base_font else 0):
+            if made >= (6 if tier == "quick" else 60): break
+            try:
+                f = TTFont(io.BytesIO(base_font), lazy=True); ng = f["maxp"].numGlyphs
+                code = rng.choice([0x21, 0x100, 0x3041, 0xE000]); gid = rng.randint(1, 10); m = {}
+                pieces = rng.randint(3, 7); ordered = rng.chance(80)
+                for _ in range(pieces):
+                    if ordered:
+                        for _j in range(rng.randint(5, 14)):
+                            gid += 1
+                            if gid >= ng: gid = 1
+                            m[code] = gid; code += 1
+                    else:
+                        for _j in range(rng.randint(1, 5)):
+                            gid = rng.randint(1, ng - 1); m[code] = gid; code += 1
+                    ordered = not ordered
+                segs = []
+                for c in sorted(m):
+                    if segs and segs[-1][1] == c - 1 and (m[c] - c) % 65536 == segs[-1][2]: segs[-1][1] = c
+                    else: segs.append([c, c, (m[c] - c) % 65536])
+                segs.append([0xFFFF, 0xFFFF, 1])
+                n = len(segs); sr = 2 * (1 << (n.bit_length() - 1)); es = n.bit_length() - 1
+                sub = _st.pack(">HHHHHHH", 4, 16 + 8 * n, 0, 2 * n, sr, es, 2 * n - sr)
+                sub += b"".join(_st.pack(">H", e_) for _s, e_, _d in segs) + b"\0\0" + b"".join(_st.pack(">H", s_) for s_, _e, _d in segs)
+                sub += b"".join(_st.pack(">H", d_) for _s, _e, d_ in segs) + b"\0\0" * n
+                tbl = _st.pack(">HHHHL", 0, 1, 3, 1, 12) + sub
+                t = _DT("cmap"); t.data = tbl; f.tables["cmap"] = t
+                b = io.BytesIO(); f.save(b)
+                back = TTFont(io.BytesIO(b.getvalue())).getBestCmap()
+                order = f.getGlyphOrder()
+                if back != {c: order[g] for c, g in m.items()}: continue          # the hand-packed table must mean what was intended
+                made += 1
+                yield "generated+hand-packed-cmap4(%d codes, %d segments, #%d)" % (len(m), n, q), b.getvalue(), -1
+            except Exception:
+                continue
         # a corpus font with an unknown table transplanted in
         ps = cover(3)
         if ps:
